@@ -27,7 +27,7 @@ def run(ctx: Ctx) -> int:
         {"versions": "1..8", "block_len": "1..3"},
         ["the independent AVM table (vlib/avmspec.py); `method` (pseudo-op) and size-dependent costs (base64_decode, json_ref) are left out of the claim",
          "field-level modes (e.g. `global Round` is application-only) are not instruction-level and are outside the claim"],
-        timeout_quick=120, timeout_thorough=300,
+        timeout_quick=300, timeout_thorough=600,
     )
 
 
